@@ -621,25 +621,38 @@ int fcntl(int fd, int cmd, ...) {
   long val = va_arg(args, long);
   va_end(args);
 
-  // descriptors the shim does not manage (including invalid ones) go to the
-  // real fcntl, which reports EBADF etc.
-  if (!thread_locked && fd_is_waitable(fd)) {
-    if (cmd == F_SETFL && (val == O_NONBLOCK || val == O_NDELAY)) {
-      atomic_fetch_and(&fd_info[fd].flags_, ~IO_FLAG_BLOCKING);
-      assert(!(fd_info[fd].flags_ & IO_FLAG_BLOCKING));
-      return 0;
-    }
-    // make sure O_NONBLOCK stays set
-    if (cmd == F_SETFL) {
-      val |= O_NONBLOCK;
-    }
-  }
-
   if (!fibershim_fcntl) {
     fibershim_fcntl = (fcntlFnType)dlsym(RTLD_NEXT, "fcntl");
   }
 
-  return fibershim_fcntl(fd, cmd, val);
+  // descriptors the shim does not manage (including invalid ones) go to the
+  // real fcntl, which reports EBADF etc.
+  const int managed = !thread_locked && fd_is_waitable(fd);
+  if (managed && cmd == F_SETFL) {
+    // remember the mode the caller asked for; the descriptor itself always
+    // stays non-blocking so that only the calling fiber is suspended
+    const int want_nonblock = (val & (O_NONBLOCK | O_NDELAY)) != 0;
+    const int ret = fibershim_fcntl(fd, cmd, val | O_NONBLOCK);
+    if (ret == 0) {
+      if (want_nonblock) {
+        atomic_fetch_and(&fd_info[fd].flags_, ~IO_FLAG_BLOCKING);
+      } else {
+        atomic_fetch_or(&fd_info[fd].flags_, IO_FLAG_BLOCKING);
+      }
+    }
+    return ret;
+  }
+
+  int ret = fibershim_fcntl(fd, cmd, val);
+  if (managed && cmd == F_GETFL && ret >= 0) {
+    // report the mode the caller asked for, not the internal O_NONBLOCK
+    if (fd_info[fd].flags_ & IO_FLAG_BLOCKING) {
+      ret &= ~O_NONBLOCK;
+    } else {
+      ret |= O_NONBLOCK;
+    }
+  }
+  return ret;
 }
 
 int ioctl(IOCTLPARAMS) {
